@@ -27,7 +27,7 @@ def gen_shape(rng, dom_sizes=(1, 2, 3, 2, 0)):
     return shape
 
 
-def run_case(ctx, shape, dtypes, reqs, meta):
+def run_case(ctx, shape, dtypes, reqs, meta, preqs):
     case = dict(shape={k: v for k, v in shape.items() if k != 'vweights'}, vweights=shape['vweights'])
     nontriv = len(shape['rules']) >= 2 and any(r['edges'] for r in shape['rules'])
     ctx.case(case, repr(shape) if nontriv else None, sample_every=60)
@@ -57,6 +57,38 @@ def run_case(ctx, shape, dtypes, reqs, meta):
                 meta.append((case, meta_key, out, dtype))
                 op = {'real': 'real', 'log': 'real', 'viterbi': 'viterbi', 'bool': 'bool'}[name]
                 reqs.append(f'C01.{op} {gen.enc_shape(sh)} {semgen.enc_order(order)} {n}')
+                # the model of the whole driver loop (its own SCC order from the Tarjan model; `Pipe.sumProducts`, the subject of
+                # C01.sumProducts_nonrecursive) for the same method
+                preqs.append((f'P.sumProducts {op} {gen.enc_shape(sh)} {method} 1000', case, meta_key, out, dtype))
+
+
+def pipeline(ctx, preqs):
+    """`Pipe.sumProducts` (driver loop model) against sum_products: no exception, no warning, same tensors"""
+    uniq = {}
+    for r in preqs:
+        uniq.setdefault(r[0], None)
+    for r, rep in zip(list(uniq), ctx.driver.ask_many(list(uniq))):
+        uniq[r] = rep
+    for req, case, key, out, dtype in preqs:
+        rep = uniq[req]
+        if isinstance(rep, Exception):
+            raise rep
+        name, _, method = key
+        t = Toks(rep)
+        ctx.evaluations += 1
+        if t.next() != 'ok':
+            ctx.disagree('Pipe.sumProducts raises on a non-recursive grammar', dict(case, config=key), repr(out)[:200], rep[:200])
+            continue
+        warned, unmodelled = t.bool(), t.bool()
+        val = semgen.parse_val(t, (lambda: t.next() == 'T') if name == 'bool' else None)
+        if warned or unmodelled:
+            ctx.disagree('Pipe.sumProducts warns / leaves the model on a non-recursive grammar', dict(case, config=key), None, rep[:200])
+        if isinstance(out, Exception):
+            continue          # reported by the main comparison
+        for X, (o, m) in enumerate(zip(out, val)):
+            if o is not None and not semgen.val_matches(o, m, name, dtype or torch.float64):
+                ctx.disagree('Pipe.sumProducts vs sum_products', dict(case, config=key, nonterminal=X), o, repr(m))
+                break
 
 
 def _same(a, b):
@@ -65,10 +97,11 @@ def _same(a, b):
 
 def run(ctx):
     dtypes = [torch.float64] if ctx.quick else [torch.float64, torch.float32]
-    reqs, meta = [], []
+    reqs, meta, preqs = [], [], []
     n = 60 if ctx.quick else 1200
     for k in range(n):
-        run_case(ctx, gen_shape(ctx.rng), dtypes, reqs, meta)
+        run_case(ctx, gen_shape(ctx.rng), dtypes, reqs, meta, preqs)
+    pipeline(ctx, preqs)
     # de-duplicate identical requests (same grammar/semiring model) to save driver time
     uniq = {}
     for r in reqs:
